@@ -58,6 +58,9 @@ model/ObjHistory.vos model/ObjHistory.vok model/ObjHistory.required_vos: model/O
 model/ObjModel.vo model/ObjModel.glob model/ObjModel.v.beautified model/ObjModel.required_vo: model/ObjModel.v 
 model/ObjModel.vio: model/ObjModel.v 
 model/ObjModel.vos model/ObjModel.vok model/ObjModel.required_vos: model/ObjModel.v 
+proofs/C02_defs.vo proofs/C02_defs.glob proofs/C02_defs.v.beautified proofs/C02_defs.required_vo: proofs/C02_defs.v lib/Lib.vo lib/RLib.vo lib/Trig.vo lib/Conv.vo lib/Spec.vo gen/Compute.vo gen/Tables.vo gen/Unfold.vo proofs/Spec_planar.vo proofs/Spec_spatial1.vo proofs/Spec_spatial2.vo proofs/Spec_lorentz.vo
+proofs/C02_defs.vio: proofs/C02_defs.v lib/Lib.vio lib/RLib.vio lib/Trig.vio lib/Conv.vio lib/Spec.vio gen/Compute.vio gen/Tables.vio gen/Unfold.vio proofs/Spec_planar.vio proofs/Spec_spatial1.vio proofs/Spec_spatial2.vio proofs/Spec_lorentz.vio
+proofs/C02_defs.vos proofs/C02_defs.vok proofs/C02_defs.required_vos: proofs/C02_defs.v lib/Lib.vos lib/RLib.vos lib/Trig.vos lib/Conv.vos lib/Spec.vos gen/Compute.vos gen/Tables.vos gen/Unfold.vos proofs/Spec_planar.vos proofs/Spec_spatial1.vos proofs/Spec_spatial2.vos proofs/Spec_lorentz.vos
 proofs/C04_conv.vo proofs/C04_conv.glob proofs/C04_conv.v.beautified proofs/C04_conv.required_vo: proofs/C04_conv.v lib/Lib.vo lib/RLib.vo lib/Trig.vo lib/Conv.vo lib/Spec.vo gen/Compute.vo gen/Tables.vo gen/Unfold.vo proofs/Spec_planar.vo proofs/Spec_spatial1.vo proofs/Spec_spatial2.vo proofs/Spec_lorentz.vo
 proofs/C04_conv.vio: proofs/C04_conv.v lib/Lib.vio lib/RLib.vio lib/Trig.vio lib/Conv.vio lib/Spec.vio gen/Compute.vio gen/Tables.vio gen/Unfold.vio proofs/Spec_planar.vio proofs/Spec_spatial1.vio proofs/Spec_spatial2.vio proofs/Spec_lorentz.vio
 proofs/C04_conv.vos proofs/C04_conv.vok proofs/C04_conv.required_vos: proofs/C04_conv.v lib/Lib.vos lib/RLib.vos lib/Trig.vos lib/Conv.vos lib/Spec.vos gen/Compute.vos gen/Tables.vos gen/Unfold.vos proofs/Spec_planar.vos proofs/Spec_spatial1.vos proofs/Spec_spatial2.vos proofs/Spec_lorentz.vos
@@ -112,6 +115,9 @@ proofs/Spec_spatial2.vos proofs/Spec_spatial2.vok proofs/Spec_spatial2.required_
 props/C01.vo props/C01.glob props/C01.v.beautified props/C01.required_vo: props/C01.v lib/Lib.vo lib/RLib.vo lib/Spec.vo gen/Compute.vo gen/Tables.vo proofs/Spec_planar.vo proofs/Spec_spatial1.vo proofs/Spec_spatial2.vo proofs/Spec_lorentz.vo
 props/C01.vio: props/C01.v lib/Lib.vio lib/RLib.vio lib/Spec.vio gen/Compute.vio gen/Tables.vio proofs/Spec_planar.vio proofs/Spec_spatial1.vio proofs/Spec_spatial2.vio proofs/Spec_lorentz.vio
 props/C01.vos props/C01.vok props/C01.required_vos: props/C01.v lib/Lib.vos lib/RLib.vos lib/Spec.vos gen/Compute.vos gen/Tables.vos proofs/Spec_planar.vos proofs/Spec_spatial1.vos proofs/Spec_spatial2.vos proofs/Spec_lorentz.vos
+props/C02.vo props/C02.glob props/C02.v.beautified props/C02.required_vo: props/C02.v lib/Lib.vo lib/RLib.vo lib/Spec.vo gen/Compute.vo gen/Tables.vo proofs/Spec_planar.vo proofs/Spec_spatial1.vo proofs/Spec_spatial2.vo proofs/Spec_lorentz.vo proofs/C02_defs.vo proofs/C09_boost.vo proofs/C10_rot.vo
+props/C02.vio: props/C02.v lib/Lib.vio lib/RLib.vio lib/Spec.vio gen/Compute.vio gen/Tables.vio proofs/Spec_planar.vio proofs/Spec_spatial1.vio proofs/Spec_spatial2.vio proofs/Spec_lorentz.vio proofs/C02_defs.vio proofs/C09_boost.vio proofs/C10_rot.vio
+props/C02.vos props/C02.vok props/C02.required_vos: props/C02.v lib/Lib.vos lib/RLib.vos lib/Spec.vos gen/Compute.vos gen/Tables.vos proofs/Spec_planar.vos proofs/Spec_spatial1.vos proofs/Spec_spatial2.vos proofs/Spec_lorentz.vos proofs/C02_defs.vos proofs/C09_boost.vos proofs/C10_rot.vos
 props/C03.vo props/C03.glob props/C03.v.beautified props/C03.required_vo: props/C03.v model/Layout.vo
 props/C03.vio: props/C03.v model/Layout.vio
 props/C03.vos props/C03.vok props/C03.required_vos: props/C03.v model/Layout.vos
